@@ -76,6 +76,16 @@ def designs(tier):
     return out
 
 
+class _Stopper:
+    def __init__(self, sim):
+        self.sim, self.n, self.at = sim, 0, None
+
+    def simulatorUpdated(self):
+        self.n += 1
+        if self.n == self.at:
+            self.sim.stop()
+
+
 def shards(tier):
     return designs(tier)
 
@@ -375,6 +385,38 @@ def explore_design(d, sub, res):
                 if ref[1] != t0 + n:
                     c.problem = {'sigkey': 'total_clks', 'n': n, 'got': ref[1] - t0}
                     break
+        # (4) stop(): a listener asks for a stop during cycle k of clk(n) -> k cycles are simulated; the stop request is consumed:
+        #     the following clk(2) simulates two cycles.  Altogether the same as k + 2 single-cycle calls.
+        if c.problem is None:
+            stopper = _Stopper(c.sim)
+            c.sim.addListener(stopper)
+            try:
+                for n in (1, 2, 3):
+                    for k in range(1, n + 1):
+                        st.restore(pre)
+                        poke(c, x)
+                        c.sim.total_clks = t0
+                        stopper.n, stopper.at = 0, k
+                        c.sim.clk(n)
+                        mid = c.sim.total_clks
+                        stopper.at = None
+                        c.sim.clk(2)
+                        got = (st.snapshot(), c.sim.total_clks)
+                        st.restore(pre)
+                        poke(c, x)
+                        c.sim.total_clks = t0
+                        for _ in range(k + 2):
+                            c.sim.clk(1)
+                        ref = (st.snapshot(), c.sim.total_clks)
+                        res['evaluations'] += 1
+                        if got != ref or mid != t0 + k:
+                            c.problem = {'sigkey': 'stop_request', 'n': n, 'stop_in_cycle': k, 'inputs': list(x),
+                                         'cycles_after_stopped_call': mid - t0, 'total_clks(after clk(2), k+2 single calls)': [got[1] - t0, ref[1] - t0]}
+                            break
+                    if c.problem:
+                        break
+            finally:
+                c.sim.listeners.remove(stopper)
         st.restore(post)
         c.sim.total_clks = t0 + 1
 
